@@ -1,0 +1,7 @@
+//go:build verif && !ark_tiny
+
+package ecs
+
+// Mask vocabulary for the default (256 bit) build.
+
+//@ spec func mhas(m bitMask, i uint8) bool := m256has(m, i)
